@@ -451,3 +451,310 @@ func c14RegexpNoNewGroup(c *Check, rule string) {
 	c.Hold(rule, "Regexp.Init:no-new-group", badPos, msg == "", msg)
 	_ = n
 }
+
+// c05OverrideDirective: "override off" is a configuration cell of the property. The switch the administrator sets with
+// `requiretls_override` must be the flag that gates the message's TLS-Required: No – the field the directive stores
+// into is the field tested together with msgMeta.TLSRequireOverride.
+func c05OverrideDirective(c *Check, rule string) {
+	c.Rule(rule, "target.remote: the field the requiretls_override directive stores into is the one tested together with the message's TLSRequireOverride flag where the security policies are switched off (`requiretls_override no` really disables the override)", 1)
+	r := c.need(rule, remoteRel, "Target", "Init")
+	if r == nil {
+		return
+	}
+	var dirField *types.Var
+	ast.Inspect(r.FI.Decl.Body, func(x ast.Node) bool {
+		call, ok := x.(*ast.CallExpr)
+		if !ok || len(call.Args) < 2 {
+			return true
+		}
+		if s, isConst := constString(r.Info, call.Args[0]); !isConst || s != "requiretls_override" {
+			return true
+		}
+		if u, ok := ast.Unparen(call.Args[len(call.Args)-1]).(*ast.UnaryExpr); ok && u.Op == token.AND {
+			dirField = fieldOf(r.Info, u.X)
+		}
+		return true
+	})
+	if dirField == nil {
+		c.Fail(rule, "Target.Init:requiretls_override", r.FI.Decl.Pos(), "undecided: the directive requiretls_override does not store into a field of the target")
+		return
+	}
+	// the place where the override is decided
+	n := 0
+	for _, fi := range funcsOfPkgs(c.P, remoteRel) {
+		if fi.Decl.Body == nil {
+			continue
+		}
+		info := fi.Info()
+		ast.Inspect(fi.Decl.Body, func(x ast.Node) bool {
+			be, ok := x.(*ast.BinaryExpr)
+			if !ok || (be.Op != token.LAND && be.Op != token.LOR) {
+				return true
+			}
+			mentionsFlag, mentionsDir := false, false
+			ast.Inspect(be, func(y ast.Node) bool {
+				if e, ok := y.(ast.Expr); ok {
+					if fv := fieldOf(info, e); fv != nil {
+						if fv.Name() == "TLSRequireOverride" {
+							mentionsFlag = true
+						}
+						if fv == dirField {
+							mentionsDir = true
+						}
+					}
+				}
+				return true
+			})
+			if !mentionsFlag {
+				return true
+			}
+			n++
+			c.SawFunc(fi.Name())
+			c.Hold(rule, refName(fi.Obj)+":override-gate"+itoa(n), be.Pos(), mentionsDir, "the message's TLS-Required: No is honoured under a flag that is not the one `requiretls_override` sets ("+dirField.Name()+"): with `requiretls_override no` a message carrying the header is still delivered with MTA-STS, DANE and the local policy switched off")
+			return false
+		})
+	}
+	if n == 0 {
+		c.Fail(rule, "override-gate", r.FI.Decl.Pos(), "undecided: no condition combines the message's TLSRequireOverride flag with a target setting")
+	}
+}
+
+// c12HookAfterInit: shutdown hooks run in reverse order of registration. A module's Init obtains its dependencies
+// (`target &remote` inside a queue) through nested GetInstance calls, so with the hook registered after Init has
+// succeeded a dependency registers before its user and is closed after it: Queue.Close, which waits for the attempts in
+// flight, runs before the Close of the target those attempts deliver through. Registering in front of Init reverses that.
+func c12HookAfterInit(c *Check, rule string) {
+	c.Rule(rule, "module.GetInstance registers a module's shutdown hook only after its Init has returned (on every path from entry to hooks.AddHook the Init call has been made): dependencies, initialised inside Init, register first and are closed last – the queue stops its attempts before the target they use is closed", 1)
+	r := c.need(rule, "framework/module", "", "GetInstance")
+	if r == nil {
+		return
+	}
+	hooksAt := r.Calls(func(info *types.Info, call *ast.CallExpr) bool {
+		return isCall(info, call, "~/framework/hooks.AddHook")
+	})
+	inits := r.Calls(func(info *types.Info, call *ast.CallExpr) bool { return methodName(call) == "Init" })
+	if len(hooksAt) == 0 || len(inits) == 0 {
+		c.Fail(rule, "GetInstance:sites", r.FI.Decl.Pos(), "undecided: expected a call of the module's Init and a call of hooks.AddHook")
+		return
+	}
+	path, f := r.F.Reach(Query{From: r.Entry(), Inclusive: true, Target: isPt(hooksAt), Avoid: isPt(inits)})
+	c.Hold(rule, "GetInstance:hook-after-init", r.FI.Decl.Pos(), !f, "the shutdown hook can be registered before the module's Init has run: a module then registers in front of the dependencies its Init creates and is closed after them – at shutdown the remote target (and its connection pool) is closed while the queue's attempts are still using it: "+r.F.Describe(path))
+}
+
+// c19NilMapGuard: a map field that some method sets to nil (Close) is written by the other methods only behind a test
+// that it is not nil: a Return that arrives after Close – an attempt that was in flight at shutdown – must not panic
+// (the queue's panic handler would quarantine a message its server has accepted).
+func c19NilMapGuard(c *Check, rule string, rel string) {
+	c.Rule(rule, "a map field that a method of the type sets to nil (the pool's key table in Close) is stored into only behind a test that it is not nil: an operation that arrives after Close returns instead of panicking with 'assignment to entry in nil map'", 1)
+	p := c.P
+	pk := p.Pkg(rel)
+	if pk == nil {
+		c.Fail(rule, rel, token.NoPos, "anchor unresolved: package")
+		return
+	}
+	info := pk.TypesInfo
+	nilled := map[*types.Var]token.Pos{}
+	fis := funcsOfPkgs(p, rel)
+	for _, fi := range fis {
+		if fi.Decl.Body == nil {
+			continue
+		}
+		ast.Inspect(fi.Decl.Body, func(x ast.Node) bool {
+			if as, ok := x.(*ast.AssignStmt); ok && len(as.Lhs) == len(as.Rhs) {
+				for i, l := range as.Lhs {
+					if fv := fieldOf(info, l); fv != nil && isNilIdent(info, as.Rhs[i]) {
+						if _, isMap := fv.Type().Underlying().(*types.Map); isMap {
+							nilled[fv] = as.Pos()
+						}
+					}
+				}
+			}
+			return true
+		})
+	}
+	n := 0
+	for _, fi := range fis {
+		if fi.Decl.Body == nil {
+			continue
+		}
+		var fl *Flow
+		ord := 0
+		ast.Inspect(fi.Decl.Body, func(x ast.Node) bool {
+			as, ok := x.(*ast.AssignStmt)
+			if !ok {
+				return true
+			}
+			for _, l := range as.Lhs {
+				ix, ok := ast.Unparen(l).(*ast.IndexExpr)
+				if !ok {
+					continue
+				}
+				fv := fieldOf(info, ix.X)
+				if fv == nil {
+					continue
+				}
+				if _, isN := nilled[fv]; !isN {
+					continue
+				}
+				if fl == nil {
+					fl = p.FlowOfFunc(fi)
+					c.SawFunc(fi.Name())
+				}
+				pt, ok := fl.PtOfNode(as)
+				if !ok {
+					continue // inside a function literal: judged with its own flow below
+				}
+				n++
+				ord++
+				unguarded := fl.AvoidImplying(func(atom ast.Expr) (bool, bool) {
+					be, ok := ast.Unparen(atom).(*ast.BinaryExpr)
+					if !ok || (be.Op != token.EQL && be.Op != token.NEQ) {
+						return false, false
+					}
+					var other ast.Expr
+					if isNilIdent(info, be.Y) {
+						other = be.X
+					} else if isNilIdent(info, be.X) {
+						other = be.Y
+					}
+					if other == nil || fieldOf(info, other) != fv {
+						return false, false
+					}
+					// the edge on which the field is known to be non-nil is taken away
+					return be.Op == token.NEQ, true
+				})
+				path, f := fl.Reach(Query{From: []Pt{fl.Entry()}, Inclusive: true, Target: isPt([]Pt{pt}), AvoidEdge: unguarded, NoCorr: true})
+				c.Hold(rule, fi.Pkg.Types.Name()+"."+refName(fi.Obj)+":"+fv.Name()+":store"+itoa(ord), as.Pos(), !f, "the store into "+fv.Name()+" is reachable without a test that the map is not nil, and "+p.Pos(nilled[fv])+" sets it to nil: an operation that arrives after that (a connection returned by an attempt that was in flight at shutdown) panics with 'assignment to entry in nil map' – inside the queue's attempt goroutine, whose panic handler quarantines the message although its server accepted it: "+fl.Describe(path))
+			}
+			return true
+		})
+	}
+	if n == 0 {
+		c.HoldConst(rule, rel+":no-nilled-map-stores", token.NoPos, true, "")
+	}
+}
+
+// c12GoroutinesCounted: Queue.Close returns when the wheel has stopped and the wait group is empty. Everything the
+// queue still does to a message – an attempt, the failure report of an attempt – must therefore run on a goroutine
+// that the wait group counts: a `go` statement in the queue's own methods is preceded, on every path, by an Add on a
+// wait group.
+func c12GoroutinesCounted(c *Check, rule string) {
+	c.Rule(rule, "every goroutine the queue's methods start is counted by a wait group before it is started (Queue.Close waits for it): no work on a message – an attempt, handing over its failure report – is still running, unaccounted, when Close has returned", 1)
+	p := c.P
+	n := 0
+	for _, fi := range funcsOfPkgs(p, queueRel) {
+		if fi.Decl.Body == nil || fi.Decl.Recv == nil {
+			continue
+		}
+		if rt := recvTypeName(fi.Decl); rt != "Queue" && rt != "queueDelivery" {
+			continue
+		}
+		info := fi.Info()
+		bodies := []*ast.BlockStmt{fi.Decl.Body}
+		ast.Inspect(fi.Decl.Body, func(x ast.Node) bool {
+			if fl, ok := x.(*ast.FuncLit); ok {
+				bodies = append(bodies, fl.Body)
+			}
+			return true
+		})
+		for _, body := range bodies {
+			var gos []*ast.GoStmt
+			inspectNoLitTop(body, func(x ast.Node) bool {
+				if g, ok := x.(*ast.GoStmt); ok {
+					gos = append(gos, g)
+				}
+				return true
+			})
+			if len(gos) == 0 {
+				continue
+			}
+			fl := p.FlowOf(info, body, fi.Name())
+			adds := fl.Find(func(nd ast.Node) bool {
+				for _, call := range callsAt(nd) {
+					if isCall(info, call, "sync.WaitGroup.Add") {
+						return true
+					}
+				}
+				return false
+			})
+			for _, g := range gos {
+				pt, ok := fl.PtOfNode(g)
+				if !ok {
+					continue
+				}
+				n++
+				c.SawFunc(fi.Name())
+				path, f := fl.Reach(Query{From: []Pt{fl.Entry()}, Inclusive: true, Target: isPt([]Pt{pt}), Avoid: isPt(adds)})
+				c.Hold(rule, refName(fi.Obj)+":go"+itoa(n), g.Pos(), !f, "a goroutine is started without having been added to a wait group: Queue.Close does not wait for it – at shutdown it returns while this work (e.g. handing the failure report to the bounce pipeline, after the failed message has been removed from the spool) is still under way, and a restart finds nothing to pick up: "+fl.Describe(path))
+			}
+		}
+	}
+	if n == 0 {
+		c.Fail(rule, "queue:go-statements", token.NoPos, "undecided: the queue starts no goroutine (the attempt goroutine of dispatch was expected)")
+	}
+}
+
+// inspectNoLitTop: like ast.Inspect but does not descend into function literals nested in n (n itself may be a
+// literal's body).
+func inspectNoLitTop(n ast.Node, f func(ast.Node) bool) {
+	ast.Inspect(n, func(x ast.Node) bool {
+		if fl, ok := x.(*ast.FuncLit); ok && ast.Node(fl.Body) != n {
+			return false
+		}
+		return f(x)
+	})
+}
+
+// c06RejectWins: after all checks of a group have run, a refusal recorded by any of them is what the group returns –
+// whatever else was recorded. A quarantine verdict of another check must not take the place of a reject (the message
+// would be accepted, flagged, and delivered although a check refused it).
+func c06RejectWins(c *Check, rule string) {
+	c.Rule(rule, "checkRunner.runAndMergeResults: once the checks have finished, every successful return (nil) lies behind the test that no check recorded a reject: another check's quarantine never takes the place of a refusal", 1)
+	r := c.need(rule, pipelineRel, "checkRunner", "runAndMergeResults")
+	if r == nil {
+		return
+	}
+	info := r.Info
+	waits := r.Calls(func(info *types.Info, call *ast.CallExpr) bool { return isCall(info, call, "sync.WaitGroup.Wait") })
+	if len(waits) == 0 {
+		c.Fail(rule, "runAndMergeResults:wait", r.FI.Decl.Pos(), "undecided: the function does not wait for its checks (sync.WaitGroup.Wait)")
+		return
+	}
+	// the field that holds the recorded refusal: the one a return statement after the wait hands back
+	var rejField *types.Var
+	for _, pt := range r.F.Points() {
+		ret, ok := pt.Node().(*ast.ReturnStmt)
+		if !ok || len(ret.Results) != 1 {
+			continue
+		}
+		if fv := fieldOf(info, ret.Results[0]); fv != nil && isErrorType(fv.Type()) {
+			if f, _ := r.Reachable(waits, false, isPt([]Pt{pt}), nil); f {
+				rejField = fv
+			}
+		}
+	}
+	if rejField == nil {
+		c.Fail(rule, "runAndMergeResults:reject-field", r.FI.Decl.Pos(), "undecided: no return hands back a recorded refusal after the wait")
+		return
+	}
+	known := r.F.AvoidImplying(func(atom ast.Expr) (bool, bool) {
+		be, ok := ast.Unparen(atom).(*ast.BinaryExpr)
+		if !ok || (be.Op != token.EQL && be.Op != token.NEQ) {
+			return false, false
+		}
+		var other ast.Expr
+		if isNilIdent(info, be.Y) {
+			other = be.X
+		} else if isNilIdent(info, be.X) {
+			other = be.Y
+		}
+		if other == nil || fieldOf(info, other) != rejField {
+			return false, false
+		}
+		// take away the edge on which the field is known to be nil
+		return be.Op == token.EQL, true
+	})
+	succ := func(pt Pt) bool { return r.IsSuccessReturn(pt) }
+	path, f := r.F.Reach(Query{From: waits, Target: succ, AvoidEdge: known, NoCorr: true})
+	c.Hold(rule, "runAndMergeResults:reject-wins", r.FI.Decl.Pos(), !f, "after the checks have finished the function can return success without having tested that no reject was recorded ("+rejField.Name()+"): when one check quarantines and another refuses, the refusal is dropped – the message is accepted and delivered: "+r.F.Describe(path))
+}
